@@ -1,4 +1,6 @@
 import RsMatterVerif.Lemmas.Chunk
+import RsMatterVerif.Lemmas.ChunkAcc
+import RsMatterVerif.Lemmas.ChunkEvents
 /-!
 # C14 — a chunked answer carries the complete result exactly once
 
@@ -16,7 +18,10 @@ combination of sizes:
   whole or as "empty list + one append per element", an error status standing for a report that
   fits no message — and only for such a report (`Justified`); the event reports are the status
   reports of the invalid paths and then the events of the buffer in the cursor's range that pass
-  the event filters, each once, in buffer order (the buffer's event numbers ascend); every message
+  the event filters, each once, in buffer order — for every event buffer that is a snapshot of the
+  event queue of `im/events.rs` after any history of pushes / evictions / promotions / failed pushes
+  (`FromQueue`; that such a buffer iterates its events in ascending order is the theorem
+  `queue_ascending` over `Model/ChunkEvents.lean`, no longer a hypothesis); every message
   is at most `cap` long; no attribute report follows an event report (`attrs_before_events`);
   MoreChunkedMessages is set on all messages but the last; nothing at all is sent only when empty
   reports are suppressed and nothing was selected;
@@ -28,7 +33,11 @@ combination of sizes:
   empty message fits one) no error status is used and the stream reassembles to the original items,
   lists complete and in order: `C14_partial`.
 `C14_full` (every value delivered whatever its size) is refuted: `C14_full_fails`.
-For reads of attributes only (`chunks`): `chunk_size_accounts`, `progress`, `chunk_count_bounded`.
+For reads of attributes only (`chunks`): `chunk_size_accounts`, `progress`, `chunk_count_bounded`;
+for every answer, with or without events: `message_size_accounts` (length = header + arrays +
+structural ends + trailer), `progress_with_events` (every message but the last carries a report when
+the attribute array start is not longer than the event array start — the real encoding —, all but
+at most one otherwise), `chunk_count_bounded_events`.
 The defect of the unrepaired code: `exact_fit_fails_before_fix`.
 -/
 namespace C14
@@ -40,12 +49,75 @@ def eventsOf (r : Req) : List EvPiece :=
   | none => []
   | some e => e.reports
 
-/-- the event numbers in the buffer ascend in iteration order (an invariant of `Events`: the rings
-are iterated oldest ring first and every ring is a FIFO) -/
+/-- the event numbers in the buffer ascend in iteration order — no longer a hypothesis: it follows
+from `FromQueue` (`ascending_of_queue`) -/
 def Ascending (r : Req) : Prop :=
   match r.events with
   | none => True
   | some e => (e.buf.map (·.num)).Pairwise (· < ·)
+
+/-- **the event buffer of the request is what `Events::fetch` iterates**: a snapshot of the event
+queue of `im/events.rs` (`Model/ChunkEvents.lean`) after ANY history of `push` (any priorities and
+lengths, failing closures, events longer than a buffer), `reset` and `load` on buffers of ANY size
+`n`, with report sizes and path / access verdicts that are arbitrary functions of the stored event.
+`q.wrapped = false`: the 64-bit event number has not wrapped around since the last reset / load
+(`Queue.run_not_wrapped`: without `load` that takes `2^64 − 1` operations). -/
+def FromQueue (r : Req) : Prop :=
+  match r.events with
+  | none => True
+  | some e => ∃ (n : Nat) (ops : List QOp) (q : Queue) (size : QEv → Nat) (sel : QEv → Bool),
+      (Queue.new n).run ops = some q ∧ q.wrapped = false ∧
+      e.buf = q.iter.map fun x => ({ num := x.num, size := size x, sel := sel x } : Ev)
+
+/-- **the event queue never panics and iterates its events in ascending order** (`Lemmas/ChunkEvents.lean`):
+every eviction / promotion leaves a sublist of the iteration order `critical ++ info ++ debug`
+(`Queue.Evo`), every stored number is below the next one to be assigned -/
+theorem queue_ascending (n : Nat) (ops : List QOp) :
+    ∃ q, (Queue.new n).run ops = some q ∧ (q.wrapped = false → (q.iter.map (·.num)).Pairwise (· < ·)) ∧
+      qLen q.debug ≤ n ∧ qLen q.info ≤ n ∧ qLen q.crit ≤ n := by
+  obtain ⟨q, h1, h2⟩ := Queue.run_ok ops (Queue.new n) (Queue.qinv_new n)
+  have hn : q.n = n := by
+    have : ∀ (ops : List QOp) (q0 q1 : Queue), Queue.QInv q0 → q0.run ops = some q1 → q1.n = q0.n := by
+      intro ops
+      induction ops with
+      | nil => intro q0 q1 _ h; simp only [Queue.run, Option.some.injEq] at h; rw [h]
+      | cons op ops ih =>
+        intro q0 q1 hq h
+        cases op with
+        | push prio len abort =>
+          obtain ⟨q', res, g1, g2, g3, g4, _⟩ := Queue.push_ok q0 hq prio len abort
+          have hrun : q'.run ops = some q1 := by
+            simp only [Queue.run, g1] at h
+            cases res with
+            | ok v => exact h
+            | error e =>
+              cases e with
+              | panic w => exact absurd rfl (g3 w)
+              | resourceExhausted => exact h
+              | closure => exact h
+          rw [ih q' q1 g2 hrun, g4]
+        | reset => simp only [Queue.run] at h; exact ih q0.reset q1 (Queue.qinv_reset q0) h
+        | load v => simp only [Queue.run] at h; exact ih (q0.load v) q1 (Queue.qinv_load q0 v) h
+    exact this ops _ q (Queue.qinv_new n) h1
+  refine ⟨q, h1, h2.asc, ?_, ?_, ?_⟩
+  · have := h2.caps.d; omega
+  · have := h2.caps.i; omega
+  · have := h2.caps.c; omega
+
+theorem ascending_of_queue {r : Req} (h : FromQueue r) : Ascending r := by
+  unfold FromQueue at h
+  unfold Ascending
+  cases he : r.events with
+  | none => trivial
+  | some e =>
+    rw [he] at h
+    obtain ⟨n, ops, q, size, sel, h1, h2, h3⟩ := h
+    obtain ⟨q', g1, g2, _⟩ := queue_ascending n ops
+    rw [h1] at g1
+    injection g1 with g1
+    subst g1
+    simp only [h3, List.map_map]
+    exact g2 h2
 
 /-- what a well-behaved answer `cs` to `r` looks like -/
 structure Good (c : Cfg) (r : Req) (cs : List ChunkOut) : Prop where
@@ -116,8 +188,8 @@ theorem attrs_before_events {c : Cfg} {r : Req} {cs : List ChunkOut} (hw : c.WF)
     simp only [List.reverse_cons]
     exact ordered_last _ _ _ o2 rfl
 
-/-- **C14 for every answer**: whatever the sizes, an answer of the responder is `Good` -/
-theorem respond_good {c : Cfg} {r : Req} {cs : List ChunkOut} (hw : c.WF) (ha : Ascending r)
+/-- an answer of the responder is `Good` when the event numbers of the buffer ascend -/
+theorem respond_good_of_ascending {c : Cfg} {r : Req} {cs : List ChunkOut} (hw : c.WF) (ha : Ascending r)
     (h : respond c r = .ok cs) : Good c r cs := by
   have hord := attrs_before_events hw h
   obtain ⟨s1, s2, _, _, hf, ⟨outs, hj, hfa⟩, hfe, hcs⟩ := respond_shape hw h
@@ -134,6 +206,13 @@ theorem respond_good {c : Cfg} {r : Req} {cs : List ChunkOut} (hw : c.WF) (ha : 
     · refine .inr ⟨s2.done.reverse, { pieces := s2.attrs.reverse, events := s2.evs.reverse, size := s2.used + c.trailerDone, more := false }, by simp, rfl, ?_⟩
       intro ch hch
       exact (hf.doneOk ch (List.mem_reverse.mp hch)).1
+
+/-- **C14 for every answer**: whatever the sizes, and whatever happened to the event queue before
+(`FromQueue`: any history of pushes, evictions, promotions, failed pushes, resets), an answer of the
+responder is `Good` -/
+theorem respond_good {c : Cfg} {r : Req} {cs : List ChunkOut} (hw : c.WF) (hq : FromQueue r)
+    (h : respond c r = .ok cs) : Good c r cs :=
+  respond_good_of_ascending hw (ascending_of_queue hq) h
 
 /-- the error statuses that may stand for the selected attributes fit an empty message -/
 def StatusFits (c : Cfg) (r : Req) : Prop := ∀ it ∈ selOf r.attrs, c.hdr + c.arrOpen + it.st ≤ c.limit
@@ -307,7 +386,7 @@ theorem reassemble_allPieces : ∀ (its : List Item) (os : List Out), (∀ o ∈
         ih os (fun x hx => hos x (by simp [hx]))]
 
 /-- under `Fits` the client's view of a chunked answer is exactly the selected attributes -/
-theorem reassembled_answer {c : Cfg} {r : Req} {cs : List ChunkOut} (hw : c.WF) (ha : Ascending r)
+theorem reassembled_answer {c : Cfg} {r : Req} {cs : List ChunkOut} (hw : c.WF) (ha : FromQueue r)
     (hf : Fits c (selOf r.attrs)) (h : respond c r = .ok cs) :
     reassemble (cs.flatMap (·.pieces)) = (selOf r.attrs).map content := by
   obtain ⟨outs, hj, hfl⟩ := (respond_good hw ha h).attrs
@@ -316,7 +395,7 @@ theorem reassembled_answer {c : Cfg} {r : Req} {cs : List ChunkOut} (hw : c.WF) 
 /-- **C14 on the model**: when the error statuses and the event reports fit an empty message the
 responder ends with a `Good` answer; under `Fits` every selected attribute is delivered completely
 and the stream reassembles to the original values -/
-theorem C14_partial {c : Cfg} {r : Req} (hw : c.WF) (ha : Ascending r) (hs : StatusFits c r)
+theorem C14_partial {c : Cfg} {r : Req} (hw : c.WF) (ha : FromQueue r) (hs : StatusFits c r)
     (he : EvFits c r.events) :
     ∃ cs, respond c r = .ok cs ∧ Good c r cs ∧
       (Fits c (selOf r.attrs) → reassemble (cs.flatMap (·.pieces)) = (selOf r.attrs).map content) := by
@@ -344,11 +423,19 @@ def sampleReq : Req :=
     events := some { buf := [⟨1, 300, true⟩, ⟨2, 900, true⟩, ⟨3, 900, false⟩, ⟨5, 1100, true⟩], mins := [2],
                      nextMax := 100, statuses := [40] } }
 
+/-- the event buffer of `sampleReq` is the queue after five pushes of critical events into buffers
+of 100 bytes, the fourth of which failed in its closure (its number is used up) -/
+theorem sampleReq_fromQueue : FromQueue sampleReq := by
+  refine ⟨100, [.push 2 10 none, .push 2 10 none, .push 2 10 none, .push 2 10 (some 3), .push 2 10 none], _,
+    (fun x => if x.num = 1 then 300 else if x.num = 5 then 1100 else 900), (fun x => x.num != 3), rfl, rfl, ?_⟩
+  decide
+
 /-- the hypotheses of `C14_partial` are satisfiable (with a data-version filter that holds an
-attribute back, an event filter, an event that does not match, a list longer than a message) -/
-example : readCfg.WF ∧ Ascending sampleReq ∧ StatusFits readCfg sampleReq ∧ EvFits readCfg sampleReq.events ∧
+attribute back, an event filter, an event that does not match, a list longer than a message, a queue
+with a gap in its event numbers) -/
+example : readCfg.WF ∧ FromQueue sampleReq ∧ StatusFits readCfg sampleReq ∧ EvFits readCfg sampleReq.events ∧
     Fits readCfg (selOf sampleReq.attrs) := by
-  refine ⟨readCfg_wf, by simp [Ascending, sampleReq], ?_, ⟨?_, ?_⟩, ?_⟩
+  refine ⟨readCfg_wf, sampleReq_fromQueue, ?_, ⟨?_, ?_⟩, ?_⟩
   · intro it hit; simp [sampleReq, selOf, selected, yielded, AttrReq.unchanged] at hit
     rcases hit with rfl | rfl <;> decide
   · intro sz hsz; simp at hsz; subst hsz; decide
@@ -448,6 +535,146 @@ theorem chunk_count_bounded {c : Cfg} {items : List Item} {cs : List ChunkOut} (
     List.length_reverse] at this ⊢
   omega
 
+/-! ## answers that carry events: size accounting and progress -/
+
+theorem bareCount_reverse (l : List ChunkOut) : bareCount l.reverse = bareCount l := by
+  simp [bareCount, List.filter_reverse]
+
+theorem length_le_bare_reports : ∀ l : List ChunkOut,
+    l.length ≤ bareCount l + (l.flatMap (·.pieces)).length + (l.flatMap (·.events)).length := by
+  intro l
+  induction l with
+  | nil => simp [bareCount]
+  | cons ch l ih =>
+    rw [bareCount_cons]
+    simp only [List.length_cons, List.flatMap_cons, List.length_append]
+    cases hb : ch.bare with
+    | true => simp only [if_true]; omega
+    | false =>
+      have : 0 < ch.pieces.length + ch.events.length := by
+        simp only [ChunkOut.bare, Bool.and_eq_false_iff, List.isEmpty_eq_false_iff] at hb
+        rcases hb with hb | hb
+        · have := List.length_pos_iff.mpr hb; omega
+        · have := List.length_pos_iff.mpr hb; omega
+      simp only [Bool.false_eq_true, if_false]; omega
+
+/-- the final state behind an answer, with the accounting invariant -/
+theorem respond_acc {c : Cfg} {r : Req} {cs : List ChunkOut} (hw : c.WF) (h : respond c r = .ok cs) :
+    ∃ s2, XFin c r.attrs.isSome r.events.isSome s2 ∧
+      ((cs = [] ∧ s2.done = []) ∨
+       cs = ({ pieces := s2.attrs.reverse, events := s2.evs.reverse, size := s2.used + c.trailerDone, more := false } :: s2.done).reverse) := by
+  obtain ⟨s1, s2, h1, h2, _, _, _, hcs⟩ := respond_shape hw h
+  obtain ⟨a1, _⟩ := attrSection_ok hw h1
+  have x2 := eventSection_acc hw (attrSection_acc hw h1) a1 h2
+  refine ⟨s2, x2, ?_⟩
+  rcases hcs with ⟨h0, hsup, _, _⟩ | hcs
+  · left
+    refine ⟨h0, ?_⟩
+    -- nothing was sent: the list of finished messages is empty
+    unfold respond at h
+    rw [h1] at h; simp only at h
+    rw [h2] at h; simp only at h
+    split at h
+    · rw [sendDone_ok hw (eventSection_ok hw a1 (attrSection_ok hw h1).2.1 h2).1] at h
+      injection h with h
+      rw [h0] at h
+      simp at h
+    · injection h with h
+      rw [h0] at h
+      simpa using h
+  · exact .inr hcs
+
+/-- **size accounting for every message of every answer** (attributes, events, both, neither):
+the length of a message is header + its attribute array (array start + reports) if it has one +
+its event array (array start + reports) if it has one + one `end_container` for every array that a
+structural write closes inside the message + the trailer (`Accounts`) -/
+theorem message_size_accounts {c : Cfg} {r : Req} {cs : List ChunkOut} (hw : c.WF) (h : respond c r = .ok cs) :
+    ∀ ch ∈ cs, ∃ a e, (a = true → r.attrs.isSome = true) ∧ (e = true → r.events.isSome = true) ∧ Accounts c a e ch := by
+  obtain ⟨s2, x2, hcs⟩ := respond_acc hw h
+  intro ch hch
+  rcases hcs with ⟨rfl, _⟩ | rfl
+  · cases hch
+  · simp only [List.mem_reverse, List.mem_cons] at hch
+    rcases hch with rfl | hch
+    · refine ⟨!s2.fresh, r.events.isSome, ?_, (fun h0 => h0), x2.fin⟩
+      intro hf
+      exact x2.freshT (by simpa using hf)
+    · obtain ⟨_, a, e, h1, h2, h3, _⟩ := x2.done ch hch
+      exact ⟨a, e, h1, h2, h3⟩
+
+/-- **per-message progress for answers that carry events**: when the start of the attribute array
+is not longer than the start of the event array (the real encoding: 2 bytes each, `readCfg`,
+`subCfg`) EVERY message but the last carries at least one report.  For other encodings: all but
+at most one message, and only when both attributes and events are requested: the message in which
+the attribute array ends and the event array starts (`Accounts c true true`), when all its
+attribute reports were held back and the first event report did not fit behind the array start -/
+theorem progress_with_events {c : Cfg} {r : Req} {cs : List ChunkOut} (hw : c.WF) (h : respond c r = .ok cs) :
+    (c.arrOpen ≤ c.evOpen → ∀ ch ∈ cs.dropLast, ch.pieces ≠ [] ∨ ch.events ≠ []) ∧
+    bareCount cs.dropLast ≤ (if r.attrs.isSome && r.events.isSome then 1 else 0) ∧
+    (∀ ch ∈ cs.dropLast, ch.bare = true → Accounts c true true ch) ∧
+    (∀ ch ∈ cs.dropLast, ch.more = true) := by
+  obtain ⟨s2, x2, hcs⟩ := respond_acc hw h
+  rcases hcs with ⟨rfl, _⟩ | rfl
+  · exact ⟨(fun _ ch hch => by cases hch), Nat.zero_le _, (fun ch hch => by cases hch), (fun ch hch => by cases hch)⟩
+  · simp only [List.reverse_cons, List.dropLast_concat]
+    refine ⟨?_, by rw [bareCount_reverse]; exact x2.bare, ?_, ?_⟩
+    · intro hle ch hch
+      have h0 := x2.bare0 hle
+      have hnb : ch.bare = false := by
+        cases hb : ch.bare with
+        | false => rfl
+        | true =>
+          exfalso
+          have hmem : ch ∈ s2.done.filter ChunkOut.bare := List.mem_filter.mpr ⟨List.mem_reverse.mp hch, hb⟩
+          unfold bareCount at h0
+          rw [List.length_eq_zero_iff.mp h0] at hmem
+          cases hmem
+      simp only [ChunkOut.bare, Bool.and_eq_false_iff, List.isEmpty_eq_false_iff] at hnb
+      exact hnb
+    · intro ch hch hb
+      obtain ⟨_, a, e, _, _, h3, h4⟩ := x2.done ch (List.mem_reverse.mp hch)
+      obtain ⟨rfl, rfl⟩ := h4 hb
+      exact h3
+    · intro ch hch
+      exact (x2.done ch (List.mem_reverse.mp hch)).1
+
+/-- the number of messages is at most the number of reports plus two (plus one when only
+attributes or only events are requested) -/
+theorem chunk_count_bounded_events {c : Cfg} {r : Req} {cs : List ChunkOut} (hw : c.WF) (h : respond c r = .ok cs) :
+    cs.length ≤ (cs.flatMap (·.pieces)).length + (cs.flatMap (·.events)).length + 1 +
+      (if r.attrs.isSome && r.events.isSome then 1 else 0) := by
+  obtain ⟨_, hb, _, _⟩ := progress_with_events hw h
+  obtain ⟨s2, _, hcs⟩ := respond_acc hw h
+  rcases hcs with ⟨rfl, _⟩ | rfl
+  · simp
+  · simp only [List.reverse_cons, List.dropLast_concat] at hb
+    have := length_le_bare_reports s2.done.reverse
+    simp only [List.reverse_cons, List.length_append, List.length_singleton, List.flatMap_append, List.length_reverse] at this ⊢
+    omega
+
+/-- both sections requested, every attribute held back by its data-version filter, the first event
+nearly fills a message -/
+def bareReq : Req :=
+  { attrs := some [{ item := .scalar 1 40 30, dataver := 7, filter := some 7 }],
+    events := some { buf := [⟨1, 1140, true⟩], nextMax := 100 } }
+
+/-- an encoding whose attribute array start is one byte longer than its event array start -/
+def oddCfg : Cfg := { readCfg with arrOpen := 3 }
+
+theorem oddCfg_wf : oddCfg.WF := by
+  refine ⟨?_, ?_, ?_, ?_, ?_, ?_⟩ <;> decide
+
+set_option maxRecDepth 16000 in
+/-- the exception is real for such an encoding (the first message carries the empty attribute
+array, the start of the event array and no report), and does not occur with the real one -/
+example : (respond oddCfg { bareReq with events := some { buf := [⟨1, 1147, true⟩], nextMax := 100 } }).toOption.map
+      (·.map fun ch => (ch.pieces.length, ch.events.length, ch.size, ch.more, ch.bare)) =
+    some [(0, 0, 14, true, true), (0, 1, 1157, false, false)] ∧
+    (respond readCfg { bareReq with events := some { buf := [⟨1, 1147, true⟩], nextMax := 100 } }).toOption.map
+      (·.map fun ch => (ch.pieces.length, ch.events.length, ch.size, ch.more, ch.bare)) =
+    some [(0, 1, 1160, false, false)] := by
+  constructor <;> rfl
+
 set_option maxRecDepth 8000 in
 /-- an item that fills the message exactly is chunked, not failed -/
 example : chunks readCfg [.scalar 0 500 30, .scalar 1 647 30] =
@@ -470,7 +697,7 @@ theorem oversize_item_gets_status :
 /-- **Full statement** (every selected value is delivered, whatever its size): no responder can
 meet it for a value longer than a message; refuted on the model by `oversize_item_gets_status` -/
 def C14_full : Prop :=
-  ∀ (c : Cfg) (r : Req), c.WF → Ascending r →
+  ∀ (c : Cfg) (r : Req), c.WF → FromQueue r →
     ∃ cs, respond c r = .ok cs ∧ Good c r cs ∧
       reassemble (cs.flatMap (·.pieces)) = (selOf r.attrs).map content
 
